@@ -188,7 +188,7 @@ void runCase(const pbt::Tape& t, pbt::Ctx& ctx, const fg::Options& fopt, int for
         int cls = r.pick(4); bool checkAfter = (r.w() % 4u) != 3u;
         std::string when;
         if (cls <= 1) {
-            fg::Op op = fg::decodeOp(r, H.el, H.spec); const fg::Element& e = H.el[op.elem]; fg::Vals& v = H.val[op.elem];
+            fg::Op op = fg::decodeOp(r, H.el, H.spec, &H.val); if (op.structured) ctx.label("op-structured-value"); const fg::Element& e = H.el[op.elem]; fg::Vals& v = H.val[op.elem];
             const bool stageAtLeastPosition = s.getSystemStage() >= Stage::Position;
             // Known finding gravity-exclude-ground-nan: Gravity::setBodyIsExcluded(state, Ground, false) is documented as ignored but poisons
             // the Ground entry of the gravity force cache with NaN when g != 0. Site (input): exactly that call; excluded by not making it.
